@@ -56,7 +56,9 @@ fn main() {
         "c10" => vmon::c10::run(&p),
         "c11" => vmon::filt::run_c11(&p),
         "c13" => vmon::c13::run(&p),
+        "c17" => vmon::c17::run(&p),
         "c18" => vmon::c18::run(&p),
+        "c19" => vmon::c19::run(&p),
         "c20" => vmon::c20::run(&p),
         "c12" => vmon::filt::run_c12(&p),
         _ => {
